@@ -49,6 +49,7 @@ func hostileCrewMessages() []interface{} {
 		J(`{"to":"captain","update":{"timers":{"state":{"node":"start","bs":{"timers":{"x":null}}}}}}`),
 		J(`{"to":"captain","update":{"timers":{"state":{"node":"start","bs":{"timers":{"x":{"id":"x"},"y":5,"z":[1]}}}}}}`),
 		J(`{"to":"captain","update":{"timers":{"state":{"node":"start","bs":{"timers":null}}}}}`),
+		J(`{"to":"timers","makeTimer":{"id":"after-null","in":"1h","msg":{"to":"rec","uid":"late4"}}}`), // the first request after the timers were set to null
 		J(`{"to":"captain","update":{"timers":{}}}`),
 		J(`{"to":"captain","update":{"captain":{"state":{"node":"do","bs":{"?op":{"delete":["rec"]}}}}}}`),
 		J(`{"to":"captain","update":5}`),
